@@ -23,9 +23,10 @@ import (
 // ---------- model binding ----------
 
 type fieldBind struct {
-	acc  string // accessor applied to the struct value; "" = identity (the struct is modelled by this field alone)
-	tmpl string // alternative to acc: a template with one %s
-	set  string // setter (value, struct) for assignable fields
+	nonnil bool   // a pointer / map field that the model record stores without the option: reads give Some, writes need Some
+	acc    string // accessor applied to the struct value; "" = identity (the struct is modelled by this field alone)
+	tmpl   string // alternative to acc: a template with one %s
+	set    string // setter (value, struct) for assignable fields
 }
 
 var fieldBinds = map[string]fieldBind{
@@ -85,6 +86,14 @@ var fieldBinds = map[string]fieldBind{
 	"saml2.WarningInfo.ProxyRestriction":                    {acc: "w_proxy_restriction", set: "set_w_proxy_restriction"},
 	"saml2.WarningInfo.NotInAudience":                       {acc: "w_not_in_audience", set: "set_w_not_in_audience"},
 	"saml2.WarningInfo.InvalidTime":                         {acc: "w_invalid_time", set: "set_w_invalid_time"},
+	"saml2.AssertionInfo.NameID":                            {acc: "ai_name_id", set: "set_ai_name_id"},
+	"saml2.AssertionInfo.Values":                            {acc: "ai_values", set: "set_ai_values", nonnil: true},
+	"saml2.AssertionInfo.WarningInfo":                       {acc: "ai_warning_info", set: "set_ai_warning_info", nonnil: true},
+	"saml2.AssertionInfo.SessionIndex":                      {acc: "ai_session_index", set: "set_ai_session_index"},
+	"saml2.AssertionInfo.AuthnInstant":                      {acc: "ai_authn_instant", set: "set_ai_authn_instant"},
+	"saml2.AssertionInfo.SessionNotOnOrAfter":               {acc: "ai_session_not_on_or_after", set: "set_ai_session_not_on_or_after"},
+	"saml2.AssertionInfo.Assertions":                        {acc: "ai_assertions", set: "set_ai_assertions"},
+	"saml2.AssertionInfo.ResponseSignatureValidated":        {acc: "ai_response_signature_validated", set: "set_ai_response_signature_validated"},
 	"saml2.ProxyRestriction.Count":                          {acc: "pr_count", set: "set_pr_count"},
 	"saml2.ProxyRestriction.Audience":                       {acc: "pr_audience", set: "set_pr_audience"},
 }
@@ -98,12 +107,30 @@ var typeBinds = map[string]string{
 	"saml2.LogoutRequest":       "logout_request",
 	"saml2.WarningInfo":         "warning_info",
 	"saml2.ProxyRestriction":    "proxy_restriction",
+	"saml2.AssertionInfo":       "assertion_info",
+	"types.Attribute":           "attribute",
+}
+
+// named map types: representation option (assoc list); operations of the model
+type mapBind struct{ coq, set, lookup2, zeroElem, elem string }
+
+var mapBinds = map[string]mapBind{
+	"saml2.Values": {coq: "option (list (string * attribute))", set: "values_set", lookup2: "values_lookup2", elem: "types.Attribute"},
+}
+
+// calls the translated code makes into parts of the library that are modelled elsewhere: they become parameters
+type externBind struct{ param, coq, kind string }
+
+var externCalls = map[string]externBind{
+	"ValidateEncodedResponse": {param: "validated", coq: "res (option response)", kind: "*types.Response"},
 }
 
 // zero values of the records the translated code constructs
 var zeroBinds = map[string]string{
 	"saml2.WarningInfo":      "zero_warning_info",
 	"saml2.ProxyRestriction": "zero_proxy_restriction",
+	"saml2.AssertionInfo":    "zero_assertion_info",
+	"types.Attribute":        "zero_attribute",
 }
 
 // error struct literals -> constructor of Base.err, argument order, fields that must have a fixed value
@@ -129,6 +156,10 @@ var funcList = []string{
 	"Validate",
 	"ValidateDecodedLogoutResponse",
 	"ValidateDecodedLogoutRequest",
+	"RetrieveAssertionInfo",
+	"Values.Get",
+	"Values.GetSize",
+	"Values.GetAll",
 }
 
 // ---------- translator ----------
@@ -164,19 +195,21 @@ type pre struct {
 }
 
 type xlat struct {
-	pkg      string                       // "saml2"
-	structs  map[string]map[string]string // qualified struct -> field -> qualified type
-	consts   constEnv
-	tconsts  constEnv
-	vars     map[string]ast.Expr // package-level var initialisers
-	funcs    map[string]*ast.FuncDecl
-	done     map[string]string // translated function -> result kind ("error" | "(T, error)")
-	locals   map[*ast.Object]*varInfo
-	mutable  map[*ast.Object]bool
-	reassign map[*ast.Object]bool
-	used     map[string]bool
-	fresh    int
-	results  []string // result types of the function being translated
+	pkg        string                       // "saml2"
+	structs    map[string]map[string]string // qualified struct -> field -> qualified type
+	consts     constEnv
+	tconsts    constEnv
+	vars       map[string]ast.Expr // package-level var initialisers
+	funcs      map[string]*ast.FuncDecl
+	done       map[string]string // translated function -> result kind ("error" | "(T, error)")
+	locals     map[*ast.Object]*varInfo
+	mutable    map[*ast.Object]bool
+	reassign   map[*ast.Object]bool
+	used       map[string]bool
+	fresh      int
+	results    []string // result types of the function being translated
+	externs    map[string]bool
+	localTypes map[string]map[string]bool
 }
 
 func qualify(t, pkg string, local map[string]bool) string {
@@ -204,6 +237,10 @@ func (x *xlat) addStructs(p *pkgFiles, pkg string) {
 			}
 		}
 	}
+	if x.localTypes == nil {
+		x.localTypes = map[string]map[string]bool{}
+	}
+	x.localTypes[pkg] = local
 	for name, st := range collectStructs(p) {
 		fs := map[string]string{}
 		for _, f := range st.Fields.List {
@@ -217,13 +254,7 @@ func (x *xlat) addStructs(p *pkgFiles, pkg string) {
 }
 
 func (x *xlat) qualifyRoot(t string) string {
-	local := map[string]bool{}
-	for k := range x.structs {
-		if strings.HasPrefix(k, x.pkg+".") {
-			local[strings.TrimPrefix(k, x.pkg+".")] = true
-		}
-	}
-	return qualify(t, x.pkg, local)
+	return qualify(t, x.pkg, x.localTypes[x.pkg])
 }
 
 func (x *xlat) freshName(hint string) string {
@@ -419,6 +450,9 @@ func (x *xlat) expr(e ast.Expr) ex {
 		} else if fb.acc != "" {
 			term = "(" + fb.acc + " " + base + ")"
 		}
+		if fb.nonnil {
+			term = "(Some " + term + ")"
+		}
 		return ex{pres: pres, term: term, typ: ft}
 	case *ast.UnaryExpr:
 		switch n.Op {
@@ -430,8 +464,25 @@ func (x *xlat) expr(e ast.Expr) ex {
 				c := x.expr(cl)
 				return ex{pres: c.pres, term: c.term, typ: "*" + c.typ, valPtr: true}
 			}
+			// address of a local struct variable handed to a translated callee (which takes the value: no aliasing)
+			if id, ok := n.X.(*ast.Ident); ok && id.Obj != nil {
+				if vi, ok := x.locals[id.Obj]; ok && !isPtr(vi.typ) {
+					if _, isStruct := x.structs[vi.typ]; isStruct {
+						return ex{term: vi.coq, typ: "*" + vi.typ, valPtr: true}
+					}
+				}
+			}
 		}
 		unsup(n, "unary %v", n.Op)
+	case *ast.IndexExpr:
+		b := x.expr(n.X)
+		i := x.expr(n.Index)
+		if strings.HasPrefix(b.typ, "[]") && i.typ == "int" {
+			name := x.freshName("x")
+			pres := append(append(append([]pre{}, b.pres...), i.pres...), pre{"opt", name, "(zindex " + b.term + " " + i.term + ")"})
+			return ex{pres: pres, term: name, typ: b.typ[2:]}
+		}
+		unsup(n, "index into %s", b.typ)
 	case *ast.BinaryExpr:
 		return x.binary(n)
 	case *ast.CompositeLit:
@@ -477,7 +528,7 @@ func (x *xlat) binary(n *ast.BinaryExpr) ex {
 			if a.typ == "nil" {
 				o = b
 			}
-			if !(isPtr(o.typ) || o.typ == "error" || strings.HasPrefix(o.typ, "[]")) {
+			if !(isPtr(o.typ) || o.typ == "error" || strings.HasPrefix(o.typ, "[]") || mapBinds[o.typ].coq != "") {
 				unsup(n, "nil comparison with %s", o.typ)
 			}
 			if strings.HasPrefix(o.typ, "[]") {
@@ -595,7 +646,17 @@ func (x *xlat) composite(n *ast.CompositeLit) ex {
 		}
 		v := x.expr(keyed[k])
 		pres = append(pres, v.pres...)
-		term = "(" + fb.set + " " + x.coerce(n, v, x.structs[t][k]) + " " + term + ")"
+		vt := x.coerce(n, v, x.structs[t][k])
+		if fb.nonnil {
+			if v.valPtr {
+				vt = v.term
+			} else {
+				q := x.freshName("q")
+				pres = append(pres, pre{"opt", q, vt})
+				vt = q
+			}
+		}
+		term = "(" + fb.set + " " + vt + " " + term + ")"
 	}
 	return ex{pres: pres, term: term, typ: t}
 }
@@ -629,6 +690,20 @@ func (x *xlat) call(n *ast.CallExpr) ex {
 				return ex{pres: a.pres, term: "(Z.of_nat (String.length " + a.term + "))", typ: "int"}
 			}
 			return ex{pres: a.pres, term: "(Z.of_nat (List.length " + a.term + "))", typ: "int"}
+		case "make":
+			if len(n.Args) == 1 {
+				t := x.qualifyRoot(typeStr(n.Args[0]))
+				if _, ok := mapBinds[t]; ok {
+					return ex{term: "(Some [])", typ: t}
+				}
+			}
+			unsup(n, "make")
+		case "string":
+			a := x.expr(n.Args[0])
+			if a.typ != "string" {
+				unsup(n, "conversion of %s to string", a.typ)
+			}
+			return a
 		case "append":
 			if len(n.Args) != 2 || n.Ellipsis != token.NoPos {
 				unsup(n, "append form")
@@ -642,6 +717,13 @@ func (x *xlat) call(n *ast.CallExpr) ex {
 		// method of the receiver that is itself translated
 		if id, ok := sel.X.(*ast.Ident); ok && id.Obj != nil {
 			if vi, ok := x.locals[id.Obj]; ok && vi.typ == "*"+x.pkg+".SAMLServiceProvider" {
+				if eb, ok := externCalls[sel.Sel.Name]; ok {
+					for _, a := range n.Args {
+						x.expr(a) // arguments must be in the subset, their values do not reach the model
+					}
+					x.externs[sel.Sel.Name] = true
+					return ex{term: eb.param, typ: "res:" + eb.kind}
+				}
 				kind, ok := x.done[sel.Sel.Name]
 				if !ok {
 					unsup(n, "call of untranslated method %s", sel.Sel.Name)
@@ -790,6 +872,66 @@ func (x *xlat) block(list []ast.Stmt, cur, out, loop []*varInfo, inLoop bool) st
 		thenT := x.block(n.Body.List, cur, cur, loop, inLoop)
 		elseT := x.block(els, cur, cur, loop, inLoop)
 		return seq(wrapPres(c.pres, fmt.Sprintf("if %s then %s else %s", c.term, thenT, elseT), "CPanic"))
+	case *ast.ForStmt:
+		// for i := 0; i < BOUND; i++ { body } where body assigns neither i nor anything BOUND reads: BOUND is read once
+		init, ok1 := n.Init.(*ast.AssignStmt)
+		cond, ok2 := n.Cond.(*ast.BinaryExpr)
+		post, ok3 := n.Post.(*ast.IncDecStmt)
+		if !ok1 || !ok2 || !ok3 || init.Tok != token.DEFINE || len(init.Lhs) != 1 || len(init.Rhs) != 1 || cond.Op != token.LSS || post.Tok != token.INC {
+			unsup(n, "for-loop form")
+		}
+		iv, okI := init.Lhs[0].(*ast.Ident)
+		zero, okZ := init.Rhs[0].(*ast.BasicLit)
+		ci, okC := cond.X.(*ast.Ident)
+		pi, okP := post.X.(*ast.Ident)
+		if !okI || !okZ || zero.Value != "0" || !okC || !okP || ci.Obj != iv.Obj || pi.Obj != iv.Obj {
+			unsup(n, "for-loop form")
+		}
+		frozen := map[*ast.Object]bool{iv.Obj: true}
+		ast.Inspect(cond.Y, func(m ast.Node) bool {
+			if id, ok := m.(*ast.Ident); ok && id.Obj != nil {
+				frozen[id.Obj] = true
+			}
+			return true
+		})
+		ast.Inspect(n.Body, func(m ast.Node) bool {
+			root := func(e ast.Expr) *ast.Object {
+				for {
+					switch t := e.(type) {
+					case *ast.Ident:
+						return t.Obj
+					case *ast.SelectorExpr:
+						e = t.X
+					case *ast.IndexExpr:
+						e = t.X
+					default:
+						return nil
+					}
+				}
+			}
+			switch t := m.(type) {
+			case *ast.AssignStmt:
+				for _, l := range t.Lhs {
+					if o := root(l); o != nil && frozen[o] && !(t.Tok == token.DEFINE && o != iv.Obj && x.locals[o] == nil) {
+						unsup(n, "for-loop body assigns the counter or the bound")
+					}
+				}
+			case *ast.IncDecStmt:
+				if o := root(t.X); o != nil && frozen[o] {
+					unsup(n, "for-loop body assigns the counter or the bound")
+				}
+			}
+			return true
+		})
+		bound := x.expr(cond.Y)
+		if bound.typ != "int" {
+			unsup(n, "for-loop bound of type %s", bound.typ)
+		}
+		x.mutable[iv.Obj] = false
+		vi := x.declare(iv, "int", false)
+		body := x.block(n.Body.List, cur, cur, cur, true)
+		loopT := fmt.Sprintf("for_range (fun %s %s => %s) (zrange %s) %s", vi.coq, patOf(cur), body, bound.term, tupleOf(cur))
+		return wrapPres(bound.pres, seq(loopT), "CPanic")
 	case *ast.RangeStmt:
 		if n.Tok != token.DEFINE || n.Value == nil {
 			unsup(n, "range form")
@@ -858,14 +1000,27 @@ func (x *xlat) assign(n *ast.AssignStmt, cur []*varInfo, cont func([]*varInfo) s
 	}
 	// a, err := time.Parse(time.RFC3339, s)  /  a, err := sp.method(...)
 	if len(n.Lhs) == 2 && len(n.Rhs) == 1 {
-		call, ok := n.Rhs[0].(*ast.CallExpr)
-		if !ok {
-			unsup(n, "tuple assignment")
-		}
 		a, ok1 := n.Lhs[0].(*ast.Ident)
 		b, ok2 := n.Lhs[1].(*ast.Ident)
 		if !ok1 || !ok2 {
 			unsup(n, "tuple assignment to non-identifiers")
+		}
+		if ix, ok := n.Rhs[0].(*ast.IndexExpr); ok {
+			// v, ok := m[k]
+			m := x.expr(ix.X)
+			k := x.expr(ix.Index)
+			mb, isMap := mapBinds[m.typ]
+			if !isMap || k.typ != "string" {
+				unsup(n, "comma-ok index into %s", m.typ)
+			}
+			va, c1 := bindIdent(a, mb.elem, false, cur)
+			vb, c2 := bindIdent(b, "bool", false, c1)
+			return wrapPres(append(append([]pre{}, m.pres...), k.pres...),
+				fmt.Sprintf("let '(%s, %s) := %s %s %s in %s", va.coq, vb.coq, mb.lookup2, m.term, k.term, cont(c2)), "CPanic")
+		}
+		call, ok := n.Rhs[0].(*ast.CallExpr)
+		if !ok {
+			unsup(n, "tuple assignment")
 		}
 		if exprString(call.Fun) == "time.Parse" && len(call.Args) == 2 && exprString(call.Args[0]) == "time.RFC3339" {
 			arg := x.expr(call.Args[1])
@@ -883,7 +1038,7 @@ func (x *xlat) assign(n *ast.AssignStmt, cur []*varInfo, cont func([]*varInfo) s
 		vt := strings.TrimPrefix(r.typ, "res:")
 		va, c1 := bindIdent(a, vt, false, cur)
 		vb, c2 := bindIdent(b, "error", false, c1)
-		val := "(val_of_res " + r.term + ")"
+		val := "(ptr_of_res " + r.term + ")"
 		if !isPtr(vt) {
 			unsup(n, "tuple result of non-pointer type %s", vt)
 		}
@@ -925,16 +1080,60 @@ func (x *xlat) assign(n *ast.AssignStmt, cur []*varInfo, cont func([]*varInfo) s
 		if !ok || fb.set == "" {
 			unsup(n, "field %s.%s is not assignable in the model", st, l.Sel.Name)
 		}
-		term := x.coerce(n, v, x.structs[st][l.Sel.Name])
-		if !isPtr(vi.typ) || vi.valPtr {
-			return wrapPres(v.pres, fmt.Sprintf("let %s := (%s %s %s) in %s", vi.coq, fb.set, term, vi.coq, cont(cur)), "CPanic")
+		return x.storeField(n, vi, st, l.Sel.Name, fb, v, cur, cont)
+	case *ast.IndexExpr:
+		// x.f[k] = v on a map-typed field of a local struct
+		sel, ok := l.X.(*ast.SelectorExpr)
+		if !ok {
+			unsup(n, "index assignment target")
 		}
-		p := x.freshName("p")
-		pres := append(append([]pre{}, v.pres...), pre{"opt", p, vi.coq})
-		return wrapPres(pres, fmt.Sprintf("let %s := Some (%s %s %s) in %s", vi.coq, fb.set, term, p, cont(cur)), "CPanic")
+		id, ok := sel.X.(*ast.Ident)
+		if !ok || id.Obj == nil || x.locals[id.Obj] == nil {
+			unsup(n, "index assignment through %s", exprString(sel.X))
+		}
+		vi := x.locals[id.Obj]
+		st := strings.TrimPrefix(vi.typ, "*")
+		fb, ok := fieldBinds[st+"."+sel.Sel.Name]
+		if !ok || fb.set == "" {
+			unsup(n, "field %s.%s is not assignable in the model", st, sel.Sel.Name)
+		}
+		m := x.expr(sel)
+		mb, isMap := mapBinds[m.typ]
+		k := x.expr(l.Index)
+		if !isMap || k.typ != "string" || v.typ != mb.elem {
+			unsup(n, "index assignment into %s", m.typ)
+		}
+		// assignment to an entry of a nil map panics
+		mp := x.freshName("m")
+		pres := append(append(append(append([]pre{}, v.pres...), m.pres...), k.pres...), pre{"opt", mp, m.term})
+		nv := ex{term: "(Some (" + mb.set + " " + k.term + " " + v.term + " " + mp + "))", typ: m.typ}
+		return wrapPres(pres, x.storeField(n, vi, st, sel.Sel.Name, fb, nv, cur, cont), "CPanic")
 	}
 	unsup(n, "assignment target %T", n.Lhs[0])
 	return ""
+}
+
+// storeField: vi.f = v
+func (x *xlat) storeField(n ast.Node, vi *varInfo, st, field string, fb fieldBind, v ex, cur []*varInfo, cont func([]*varInfo) string) string {
+	term := x.coerce(n, v, x.structs[st][field])
+	pres := append([]pre{}, v.pres...)
+	if fb.nonnil {
+		// the model record stores the pointee: a nil value is not representable (it is excluded by the theorems, which
+		// show that the translated function never takes this branch)
+		if v.valPtr {
+			term = v.term
+		} else {
+			q := x.freshName("q")
+			pres = append(pres, pre{"opt", q, term})
+			term = q
+		}
+	}
+	if !isPtr(vi.typ) || vi.valPtr {
+		return wrapPres(pres, fmt.Sprintf("let %s := (%s %s %s) in %s", vi.coq, fb.set, term, vi.coq, cont(cur)), "CPanic")
+	}
+	p := x.freshName("p")
+	pres = append(pres, pre{"opt", p, vi.coq})
+	return wrapPres(pres, fmt.Sprintf("let %s := Some (%s %s %s) in %s", vi.coq, fb.set, term, p, cont(cur)), "CPanic")
 }
 
 func (x *xlat) ret(n *ast.ReturnStmt) string {
@@ -949,6 +1148,10 @@ func (x *xlat) ret(n *ast.ReturnStmt) string {
 			unsup(n, "returning %s as error", e.typ)
 		}
 		return e.term
+	}
+	if len(x.results) == 1 && x.results[0] != "error" {
+		e := x.expr(n.Results[0])
+		return wrapPres(e.pres, "CRet "+x.coerce(n, e, x.results[0]), "CPanic")
 	}
 	if len(x.results) == 1 {
 		e := x.expr(n.Results[0])
@@ -965,10 +1168,7 @@ func (x *xlat) ret(n *ast.ReturnStmt) string {
 	e := x.expr(n.Results[1])
 	t := errTerm(e)
 	if t == "" {
-		if isPtr(x.results[0]) && !v.valPtr {
-			unsup(n, "returning a possibly-nil pointer with a nil error")
-		}
-		return wrapPres(append(append([]pre{}, v.pres...), e.pres...), "CRet (Ok "+v.term+")", "CPanic")
+		return wrapPres(append(append([]pre{}, v.pres...), e.pres...), "CRet (Ok "+x.coerce(n, v, x.results[0])+")", "CPanic")
 	}
 	if v.typ != "nil" {
 		unsup(n, "returning a value beside an error")
@@ -976,8 +1176,8 @@ func (x *xlat) ret(n *ast.ReturnStmt) string {
 	if strings.HasPrefix(t, "(Some ") && strings.HasSuffix(t, ")") {
 		return wrapPres(e.pres, "CRet (Err "+t[6:len(t)-1]+")", "CPanic")
 	}
-	unsup(n, "returning an error that is not known to be non-nil")
-	return ""
+	// return nil, err with err possibly nil: (nil, nil)
+	return wrapPres(e.pres, "match "+t+" with Some e => CRet (Err e) | None => CRet (Ok "+zeroOf(n, x.results[0])+") end", "CPanic")
 }
 
 // ---------- functions ----------
@@ -1007,16 +1207,29 @@ func (x *xlat) function(out *bytes.Buffer, name string) {
 		}()
 		x.analyse(fd.Body)
 		var params []string
+		x.externs = map[string]bool{}
 		bindParam := func(id *ast.Ident, t ast.Expr) {
 			gt := x.qualifyRoot(typeStr(t))
-			ct, ok := typeBinds[strings.TrimPrefix(gt, "*")]
-			if !ok || !isPtr(gt) {
-				unsup(t, "parameter type %s", gt)
-			}
 			if id.Obj != nil && x.mutable[id.Obj] {
 				unsup(t, "parameter %s is assigned", id.Name)
 			}
-			vi := x.declare(id, gt, true)
+			var ct string
+			valPtr := false
+			switch {
+			case isPtr(gt) && typeBinds[gt[1:]] != "":
+				ct, valPtr = typeBinds[gt[1:]], true // non-nil by precondition
+			case gt == "string":
+				ct = "string"
+			case gt == "int":
+				ct = "Z"
+			case gt == "bool":
+				ct = "bool"
+			case mapBinds[gt].coq != "":
+				ct = mapBinds[gt].coq
+			default:
+				unsup(t, "parameter type %s", gt)
+			}
+			vi := x.declare(id, gt, valPtr)
 			params = append(params, fmt.Sprintf("(%s : %s)", vi.coq, ct))
 		}
 		if fd.Recv == nil || len(fd.Recv.List) != 1 || len(fd.Recv.List[0].Names) != 1 {
@@ -1042,22 +1255,36 @@ func (x *xlat) function(out *bytes.Buffer, name string) {
 			}
 		}
 		var rt string
+		plain := map[string]string{"string": "string", "int": "Z", "bool": "bool", "[]string": "list string"}
 		switch {
 		case len(x.results) == 1 && x.results[0] == "error":
 			rt, kind = "res unit", "error"
+		case len(x.results) == 1 && plain[x.results[0]] != "":
+			rt, kind = plain[x.results[0]], x.results[0]
 		case len(x.results) == 2 && x.results[1] == "error":
 			ct, ok := typeBinds[strings.TrimPrefix(x.results[0], "*")]
 			if !ok {
 				unsup(fd, "result type %s", x.results[0])
 			}
-			rt, kind = "res "+ct, x.results[0]
+			if isPtr(x.results[0]) {
+				ct = "option " + ct // (nil, nil) is a possible result of a Go function
+			}
+			rt, kind = "res ("+ct+")", x.results[0]
 		default:
 			unsup(fd, "result signature")
 		}
 		body := x.block(fd.Body.List, nil, nil, nil, false)
+		var exts []string
+		for e := range x.externs {
+			exts = append(exts, e)
+		}
+		sort.Strings(exts)
+		for _, e := range exts {
+			params = append(params, fmt.Sprintf("(%s : %s)", externCalls[e].param, externCalls[e].coq))
+		}
 		p := fset.Position(fd.Pos())
 		text = fmt.Sprintf("(* %s:%d *)\nDefinition G_%s %s : pm (%s) :=\n  run_fn (%s).\n\n",
-			shortFile(p.Filename), p.Line, name, strings.Join(params, " "), rt, body)
+			shortFile(p.Filename), p.Line, strings.ReplaceAll(name, ".", "_"), strings.Join(params, " "), rt, body)
 	}()
 	out.WriteString(text)
 	if kind != "" && !strings.HasPrefix(text, "(* UNSUPPORTED") {
@@ -1074,8 +1301,13 @@ func emitFuncs(root, types *pkgFiles, env, tenv constEnv) []byte {
 		for _, d := range root.files[fn].Decls {
 			switch n := d.(type) {
 			case *ast.FuncDecl:
-				if n.Recv != nil && n.Body != nil {
-					x.funcs[n.Name.Name] = n
+				if n.Recv != nil && n.Body != nil && len(n.Recv.List) == 1 {
+					rt := strings.TrimPrefix(typeStr(n.Recv.List[0].Type), "*")
+					if rt == "SAMLServiceProvider" {
+						x.funcs[n.Name.Name] = n
+					} else {
+						x.funcs[rt+"."+n.Name.Name] = n
+					}
 				}
 			case *ast.GenDecl:
 				if n.Tok == token.VAR {
@@ -1094,7 +1326,7 @@ func emitFuncs(root, types *pkgFiles, env, tenv constEnv) []byte {
 	var out bytes.Buffer
 	out.WriteString("(* GenFuncs.v — GENERATED by /verif/gen (funcs.go) from the function bodies of /repo's working tree on every run.\n")
 	out.WriteString("   Do not edit.  Target combinators: GenPrelude.v. *)\n")
-	out.WriteString("From V Require Import Base Time Types Generated GenPrelude.\n\n")
+	out.WriteString("From V Require Import Base Time Types Generated Profile GenPrelude.\n\n")
 	names := append([]string{}, funcList...)
 	_ = sort.Strings
 	for _, n := range names {
